@@ -94,14 +94,64 @@ def _scratch_tree(patch):
     return tmp, tree
 
 
+def _one_patch(patch, prop, name, workers):
+    tmp, tree = _scratch_tree(patch)
+    t0 = time.time()
+    try:
+        rdir = os.path.join(tmp, 'out')
+        os.makedirs(rdir)
+        envx = {'PAMQP_SRC': tree, 'VERIF_EVIDENCE_DIR': rdir,
+                'VERIF_REPLAY_DIR': rdir, 'PYTHONPATH': ''}
+        if workers:
+            envx['VERIF_WORKERS'] = str(workers)
+        if prop == 'NEG':
+            alarms = []
+            for check in CHECKS:
+                rc, out = _run_check(check, envx)
+                if rc != 0:
+                    alarms.append((check, rc, [
+                        ln for ln in out.splitlines()
+                        if 'VIOLATION' in ln or 'HARNESS' in ln][:2]))
+            ok = not alarms
+            print('SENSITIVITY %-48s negative control: %s (%.0fs)' % (
+                name, 'silent on all 9 checks' if ok else
+                'ALARM %r' % alarms, time.time() - t0))
+            sys.stdout.flush()
+            return {'mutant': name, 'kind': 'negative', 'ok': ok,
+                    'alarms': alarms}
+        rc, out = _run_check(prop, envx)
+        vio = [ln for ln in out.splitlines() if ln.startswith('VIOLATION')]
+        ok = rc == 1 and bool(vio)
+        detail = ''
+        if ok:
+            i = out.splitlines().index(vio[0])
+            detail = ' | '.join(
+                x.strip() for x in out.splitlines()[i + 1:i + 3])
+        print('SENSITIVITY %-48s %s: %s (%.0fs) %s' % (
+            name, prop, 'caught' if ok else 'MISSED rc=%d' % rc,
+            time.time() - t0, detail[:200]))
+        if not ok:
+            print('   ' + '\n   '.join(out.splitlines()[-6:]))
+        sys.stdout.flush()
+        return {'mutant': name, 'property': prop, 'ok': ok,
+                'detail': detail[:300]}
+    finally:
+        shutil.rmtree(tmp, ignore_errors=True)
+
+
 def sensitivity(argv):
+    """./run selftest-sensitivity [-jN] [name-or-property ...]"""
+    from concurrent.futures import ThreadPoolExecutor
+    jobs = 1
+    for a in argv:
+        if a.startswith('-j'):
+            jobs = max(1, int(a[2:]))
     only = [a for a in argv if not a.startswith('-')]
     patches = sorted(glob.glob(os.path.join(core.VERIF, 'mutants',
                                             '*.diff')))
     patches += sorted(glob.glob(os.path.join(core.VERIF, 'seeded', '*',
                                              'patch.diff')))
-    results = []
-    failures = 0
+    todo = []
     for patch in patches:
         if '/seeded/' in patch:
             meta = json.load(open(os.path.join(os.path.dirname(patch),
@@ -113,48 +163,12 @@ def sensitivity(argv):
             prop, name = base.split('.', 1)[0], base[:-5]
         if only and not any(o in name or o == prop for o in only):
             continue
-        tmp, tree = _scratch_tree(patch)
-        t0 = time.time()
-        try:
-            rdir = os.path.join(tmp, 'out')
-            os.makedirs(rdir)
-            envx = {'PAMQP_SRC': tree, 'VERIF_EVIDENCE_DIR': rdir,
-                    'VERIF_REPLAY_DIR': rdir, 'PYTHONPATH': ''}
-            if prop == 'NEG':
-                alarms = []
-                for check in CHECKS:
-                    rc, out = _run_check(check, envx)
-                    if rc != 0:
-                        alarms.append((check, rc, [
-                            ln for ln in out.splitlines()
-                            if 'VIOLATION' in ln or 'HARNESS' in ln][:2]))
-                ok = not alarms
-                print('SENSITIVITY %-48s negative control: %s (%.0fs)' % (
-                    name, 'silent on all 9 checks' if ok else
-                    'ALARM %r' % alarms, time.time() - t0))
-                results.append({'mutant': name, 'kind': 'negative',
-                                'ok': ok, 'alarms': alarms})
-            else:
-                rc, out = _run_check(prop, envx)
-                vio = [ln for ln in out.splitlines()
-                       if ln.startswith('VIOLATION')]
-                ok = rc == 1 and bool(vio)
-                detail = ''
-                if ok:
-                    i = out.splitlines().index(vio[0])
-                    detail = ' | '.join(
-                        x.strip() for x in out.splitlines()[i + 1:i + 3])
-                print('SENSITIVITY %-48s %s: %s (%.0fs) %s' % (
-                    name, prop, 'caught' if ok else 'MISSED rc=%d' % rc,
-                    time.time() - t0, detail[:200]))
-                if not ok:
-                    print('   ' + '\n   '.join(out.splitlines()[-6:]))
-                results.append({'mutant': name, 'property': prop,
-                                'ok': ok, 'detail': detail[:300]})
-            if not ok:
-                failures += 1
-        finally:
-            shutil.rmtree(tmp, ignore_errors=True)
+        todo.append((patch, prop, name))
+    workers = max(1, (os.cpu_count() or 16) // jobs) if jobs > 1 else 0
+    with ThreadPoolExecutor(jobs) as ex:
+        results = list(ex.map(lambda t: _one_patch(t[0], t[1], t[2],
+                                                   workers), todo))
+    failures = sum(1 for r in results if not r['ok'])
     out = os.path.join(core.VERIF, 'evidence', 'sensitivity.json')
     if not only:
         with open(out, 'w') as f:
